@@ -17,6 +17,38 @@ Proof. exact szse_calc_range. Qed.
 Theorem C14_szse_int32_in_range : forall bs : list byte, (0 <= szse_calc_z bs < 256)%Z.
 Proof. exact szse_calc_z_range. Qed.
 
+(* the two CRC services compute the catalogue algorithms: the Rocksoft-model CRC (Spec/Rocksoft.v: a register shifted
+   towards its top bit, input bytes reflected, polynomial subtracted when a one leaves, result reflected and xor-ed)
+   with the parameters of CRC-16/MODBUS (width 16, poly 0x8005, init 0xFFFF, refin, refout, xorout 0) and of
+   CRC-32 "IEEE" (width 32, poly 0x04C11DB7, init 0xFFFFFFFF, refin, refout, xorout 0xFFFFFFFF), bit for bit, for
+   every byte string *)
+From FP.Spec Require Import Rocksoft.
+From FP.Theory Require Import CrcReflect.
+Theorem C14_crc16_is_crc16_modbus : forall bs : list byte, bits 16 (crc16_calc bs) = rocksoft crc16_modbus (map byte_bits bs).
+Proof. exact crc16_is_modbus. Qed.
+Theorem C14_crc32_is_crc32_ieee : forall bs : list byte, bits 32 (crc32_calc bs) = rocksoft crc32_ieee (map byte_bits bs).
+Proof. exact crc32_is_ieee. Qed.
+(* the bit list determines the number: results are below 2^16 / 2^32 (CrcBound) and bits is injective there *)
+Lemma nth_bits w x i : (i < w)%nat -> nth i (bits w x) false = N.testbit x (N.of_nat i).
+Proof.
+  induction w as [|w IH]; intro H; [lia|]. rewrite bits_snoc. destruct (Nat.eq_dec i w) as [->|Hne].
+  - rewrite app_nth2 by (rewrite bits_length; lia). rewrite bits_length, Nat.sub_diag. reflexivity.
+  - rewrite app_nth1 by (rewrite bits_length; lia). apply IH. lia.
+Qed.
+Lemma bits_inj w x y : x < 2 ^ N.of_nat w -> y < 2 ^ N.of_nat w -> bits w x = bits w y -> x = y.
+Proof.
+  intros Hx Hy H. apply N.bits_inj. intro i. destruct (N.lt_ge_cases i (N.of_nat w)) as [Hi|Hi].
+  - assert (Hn : (N.to_nat i < w)%nat) by lia.
+    pose proof (nth_bits w x _ Hn) as Ex. pose proof (nth_bits w y _ Hn) as Ey. rewrite N2Nat.id in Ex, Ey.
+    rewrite <- Ex, <- Ey, H. reflexivity.
+  - rewrite (testbit_above x (N.of_nat w) i Hx Hi), (testbit_above y (N.of_nat w) i Hy Hi). reflexivity.
+Qed.
+(* the specification on its own reproduces the catalogue's check values for "123456789" *)
+Example C14_rocksoft_check_values :
+  rocksoft crc16_modbus (map byte_bits [x31; x32; x33; x34; x35; x36; x37; x38; x39]) = bits 16 19255 (* 0x4B37 *) /\
+  rocksoft crc32_ieee (map byte_bits [x31; x32; x33; x34; x35; x36; x37; x38; x39]) = bits 32 3421780262 (* 0xCBF43926 *).
+Proof. vm_compute. split; reflexivity. Qed.
+
 (* catalogue check values on "123456789" *)
 Definition check_input : list byte := [x31; x32; x33; x34; x35; x36; x37; x38; x39].
 Example C14_crc16_check_value : crc16_calc check_input = 19255 (* 0x4B37 *).
@@ -32,3 +64,5 @@ Print Assumptions C14_szse_is_byte_sum_mod_256.
 Print Assumptions C14_sse_in_range.
 Print Assumptions C14_szse_in_range.
 Print Assumptions C14_szse_int32_in_range.
+Print Assumptions C14_crc16_is_crc16_modbus.
+Print Assumptions C14_crc32_is_crc32_ieee.
